@@ -170,7 +170,7 @@ func (u *URL) String() string {
 		param := "filter=" + escapeQueryValue(string(mf))
 		urlParams = append(urlParams, param)
 	} else if u.Params.FilterLabel != "" {
-		urlParams = append(urlParams, "filter="+escapeQueryValue(u.Params.FilterLabel))
+		urlParams = append(urlParams, "filter="+escapeQueryValue(encodeFilterLabel(u.Params.FilterLabel)))
 	}
 
 	// Pagination
@@ -215,6 +215,24 @@ func (u *URL) String() string {
 // escapeQueryValue escapes a value so that it can be part of a query string.
 func escapeQueryValue(s string) string {
 	return strings.ReplaceAll(url.QueryEscape(s), "+", "%20")
+}
+
+// encodeFilterLabel writes a filter label the way the parser reads it: as the
+// content of a JSON string that does not start with a brace.
+func encodeFilterLabel(label string) string {
+	buf := &strings.Builder{}
+	enc := json.NewEncoder(buf)
+	enc.SetEscapeHTML(false)
+	_ = enc.Encode(label)
+
+	s := strings.TrimSuffix(buf.String(), "\n")
+	s = s[1 : len(s)-1]
+
+	if strings.HasPrefix(s, "{") {
+		s = `\u007b` + s[1:]
+	}
+
+	return s
 }
 
 // UnescapedString returns the same thing as String, but special characters are
